@@ -64,6 +64,8 @@ type Exec struct {
 	retSites int
 	iterMap map[*ssa.Range]Val
 	requiresPrefix int
+	undef map[string]Val
+	retCount int
 }
 
 type unsupported struct{ msg string }
@@ -115,7 +117,7 @@ func newExec(enc *Enc, fn *ssa.Function, name string, fc *FuncContract) *Exec {
 	return &Exec{enc: enc, fn: fn, name: name, fc: fc, vals: map[ssa.Value]Val{},
 		reach: map[*ssa.BasicBlock]string{}, exit: map[*ssa.BasicBlock]*State{},
 		edge: map[[2]int][]string{}, loops: map[*ssa.BasicBlock]*loopInfo{},
-		localGhost: map[string]string{}, inputs: map[string]string{}, siteCount: map[string]int{}, iterMap: map[*ssa.Range]Val{}}
+		localGhost: map[string]string{}, inputs: map[string]string{}, siteCount: map[string]int{}, iterMap: map[*ssa.Range]Val{}, undef: map[string]Val{}}
 }
 
 func (x *Exec) findLoops() {
@@ -474,6 +476,12 @@ func (x *Exec) loopEntry(li *loopInfo, phiVal func(*ssa.Phi, func(*ssa.BasicBloc
 	}
 	mods := x.loopModset(li)
 	brkPre := e.heapGet(preLoop, "brk")
+	if _, all := mods["*"]; all {
+		delete(mods, "*")
+		e.note("%s: loop %d calls an uncontracted function: all state havoced at the loop head", x.name, li.ordinal)
+		x.havocAll()
+		mods = map[string]string{}
+	}
 	var keys []string
 	for k := range mods {
 		keys = append(keys, k)
@@ -1085,15 +1093,7 @@ func (x *Exec) unop(in *ssa.UnOp) {
 	case token.MUL: // load
 		x.nilCheck(in.X, "load", in.Pos())
 		if g, ok := in.X.(*ssa.Global); ok {
-			// package-level variables are treated as immutable constants
-			name := "gv!" + sanitize(g.Pkg.Pkg.Name()+"."+g.Name())
-			s := e.sortOf(in.Type())
-			e.decl(fmt.Sprintf("(declare-const %s %s)", name, s))
-			for _, f := range e.typeFacts(name, in.Type(), "", 0) {
-				e.decl(fmt.Sprintf("(assert %s)", f))
-			}
-			e.assumptionsUsed["package-level variables (sentinel errors, autoPrefix/autoRoute, deadlineNow) are never reassigned (checked: no Store to a Global in functions under contract)"] = true
-			x.vals[in] = Val{T: name, Sort: s, GT: in.Type()}
+			x.vals[in] = x.globalVal(g)
 			return
 		}
 		l := x.locOf(in.X)
@@ -1117,6 +1117,29 @@ func (x *Exec) unop(in *ssa.UnOp) {
 	default:
 		x.fail("unop %s", in.Op)
 	}
+}
+
+// globalVal: package-level variables are treated as immutable constants.
+func (x *Exec) globalVal(g *ssa.Global) Val {
+	e := x.enc
+	t := deref(g.Type())
+	name := "gv!" + sanitize(g.Pkg.Pkg.Name()+"."+g.Name())
+	s := e.sortOf(t)
+	e.decl(fmt.Sprintf("(declare-const %s %s)", name, s))
+	for _, f := range e.typeFacts(name, t, "", 0) {
+		e.decl(fmt.Sprintf("(assert %s)", f))
+	}
+	if types.Identical(t, types.Universe.Lookup("error").Type()) {
+		// sentinel errors are distinct non-nil values
+		e.decl(fmt.Sprintf("(assert (and (= (itag %s) %d) (= (ival %s) %d)))", name, errTag, name, e.sentinelID(name)))
+		if g.Pkg.Pkg.Path() == "context" {
+			e.decl(fmt.Sprintf("(assert (isCanceledErr %s))", name))
+		} else {
+			e.decl(fmt.Sprintf("(assert (not (isCanceledErr %s)))", name))
+		}
+	}
+	e.assumptionsUsed["package-level variables (sentinel errors, autoPrefix/autoRoute, deadlineNow) are never reassigned (govc rejects a Store to a Global in functions under contract)"] = true
+	return Val{T: name, Sort: s, GT: t}
 }
 
 func (x *Exec) allocInstr(in *ssa.Alloc) {
@@ -1554,7 +1577,14 @@ func (x *Exec) sliceInstr(in *ssa.Slice) {
 
 // envAt builds the evaluation environment at the current point.
 func (x *Exec) envAt(results []Val) *Env {
-	return &Env{x: x, st: x.st, old: x.entry, results: results, bound: map[string]Val{}}
+	env := &Env{x: x, st: x.st, old: x.entry, results: results, bound: map[string]Val{}}
+	if results != nil && x.fn != nil {
+		rs := x.fn.Signature.Results()
+		for i := 0; i < rs.Len(); i++ {
+			env.resNames = append(env.resNames, rs.At(i).Name())
+		}
+	}
+	return env
 }
 
 func (x *Exec) envAtHeader(li *loopInfo) *Env {
@@ -1564,7 +1594,7 @@ func (x *Exec) envAtHeader(li *loopInfo) *Env {
 }
 
 // lookupName resolves a source-level name at the current point.
-func (x *Exec) lookupName(name string, at *ssa.BasicBlock, st *State) (Val, bool) {
+func (x *Exec) lookupName(name string, at *ssa.BasicBlock, st *State, allowUndef bool) (Val, bool) {
 	e := x.enc
 	for _, p := range x.fn.Params {
 		if p.Name() == name {
@@ -1624,7 +1654,40 @@ func (x *Exec) lookupName(name string, at *ssa.BasicBlock, st *State) (Val, bool
 			}
 		}
 	}
+	if best == nil && !allowUndef {
+		return Val{}, false
+	}
 	if best == nil {
+		// the name exists in the function but is not defined on every path to
+		// this point: an unconstrained value (can only make proofs harder)
+		for _, b := range x.fn.Blocks {
+			for _, in := range b.Instrs {
+				var t types.Type
+				switch in := in.(type) {
+				case *ssa.Phi:
+					if in.Comment == name {
+						t = in.Type()
+					}
+				case *ssa.DebugRef:
+					if id, ok := in.Expr.(*ast.Ident); ok && id.Name == name {
+						if _, isFn := in.X.(*ssa.Function); !isFn {
+							t = in.X.Type()
+							if in.IsAddr {
+								t = deref(t)
+							}
+						}
+					}
+				}
+				if t != nil {
+					if v, ok := x.undef[name]; ok {
+						return v, true
+					}
+					v := x.freshVal("undef_"+name, t, "", "true")
+					x.undef[name] = v
+					return v, true
+				}
+			}
+		}
 		return Val{}, false
 	}
 	if bestIsAddr {
